@@ -1,4 +1,6 @@
 \* quick facet t = 3: q = 11, n = 3, EVERY polynomial of degree < 3 (1331), every committee, one challenge value
+\* one attempt, representative corruption kinds as transitions (the invariants quantify over all kinds)
+\* measured: 35,937 distinct / 408,617 generated states, 35 s
 CONSTANTS
   Q = 11
   NSet = {3}
